@@ -29,6 +29,10 @@ def run(tier, seed):
     meta = {}
     for i, x in enumerate(cor):
         text = x["text"] if i % 2 == 0 else treecheck.decorate(x["text"], rng, heavy=False)
+        if i % 3 == 0:
+            # the root's first tokens are white space: blank lines, comments, a kept directive in front of the first
+            # description (get_str_trim of the root starts at the first NON-white-space token)
+            text = ["\n", "  \n\t", "// head\n", "/* head */ ", "`timescale 1ns/1ps\n", "\n// a\n/* b */\n`celldefine\n"][(i // 3) % 6] + text
         fn = "two_step_sv_str" if x["kind"] == "sv" else "two_step_lib_str"
         hcases.append({"id": i, "calls": [{"fn": fn, "path": "t.sv", "text": text, "probe_nodes": 40 if quick else 120, "seed": seed + i}]})
         meta[str(i)] = {"text": text, "kind": x["kind"]}
